@@ -87,6 +87,7 @@ for _v, (_t, _e, _g) in VARS.items():
 NX = 64          # radix of the coordinates
 NIT = 4096       # radix of the iteration
 NR = 8           # radix of the restart number
+NRL = 16         # radix of the refinement level
 CHK = 4          # restart digit of checkpoint data = restart + CHK (restarts < 4)
 CHK_TIME = 500.0
 
@@ -97,8 +98,8 @@ def components(name):
 
 
 def code(var, it, rl, restart, x, y, z):
-    """identity of one grid value (exact in float64: < 2**41)"""
-    return (((((VAR_ID[var] * NIT + it) * 2 + rl) * NR + restart) * NX + x) * NX + y) * NX + z
+    """identity of one grid value (exact in float64: < 2**44)"""
+    return (((((VAR_ID[var] * NIT + it) * NRL + rl) * NR + restart) * NX + x) * NX + y) * NX + z
 
 
 def decode(c):
@@ -109,7 +110,7 @@ def decode(c):
     c, y = divmod(c, NX)
     c, x = divmod(c, NX)
     c, restart = divmod(c, NR)
-    c, rl = divmod(c, 2)
+    c, rl = divmod(c, NRL)
     vid, it = divmod(c, NIT)
     return {"var": ID_VAR.get(vid, vid), "it": it, "rl": rl, "restart": restart, "x": x, "y": y, "z": z}
 
